@@ -47,7 +47,7 @@ func execHist(spec *RunSpec, st *Stats) *Violation {
 		switch op.Kind {
 		case "Parse", "ParseOnly":
 			if c15 && spec.Cfg.C15Applies() {
-				ref := refModel.Get(spec.Cfg, env.src(op))
+				ref := refModel.Get(spec.Cfg, env.pristine(op.Doc))
 				if ref.out != nil && countHeadings(res.Tree.node) != len(ref.ids) && st != nil {
 					st.Trouble = append(st.Trouble, fmt.Sprintf("observer disagreement: %d Heading nodes but %d <hN> tags for %q", countHeadings(res.Tree.node), len(ref.ids), env.src(op)))
 				}
@@ -76,9 +76,12 @@ func execHist(spec *RunSpec, st *Stats) *Violation {
 		if op.Kind == "PkgConvert" {
 			cfg = Config{}
 		}
-		src := env.src(op)
+		if op.Kind == "AuxConvert" {
+			cfg = *op.Aux
+		}
+		src := env.pristine(op.Doc)
 		if res.Tree != nil {
-			src = env.docs[res.Tree.doc]
+			src = env.pristine(res.Tree.doc)
 		}
 		ref := refModel.Get(cfg, src)
 		if ref.out == nil {
@@ -161,6 +164,13 @@ func execHist(spec *RunSpec, st *Stats) *Violation {
 			}
 		}
 	}
+	if st != nil {
+		for d := range env.docs {
+			if !bytes.Equal(env.docs[d], env.orig[d]) {
+				st.Inc("diag.source_slice_modified_by_goldmark")
+			}
+		}
+	}
 	if !c15 && refModel.Unstable != nil {
 		v := refModel.Unstable
 		refModel.Unstable = nil
@@ -181,6 +191,7 @@ type histParams struct {
 	replayDir  string
 	maxVio     int
 	noMinimise bool
+	ctl        *replayCtl
 }
 
 func genHistSpec(p *histParams, c *Corpus, run int) *RunSpec {
@@ -246,8 +257,19 @@ func genHistSpec(p *histParams, c *Corpus, run int) *RunSpec {
 		switch {
 		case k < 34:
 			ops = append(ops, Op{Kind: "Convert", Doc: docFor(), Stack: stack, Ctx: ctx})
-		case k < 42:
+		case k < 40:
 			ops = append(ops, Op{Kind: "PkgConvert", Doc: docFor(), Stack: stack, Ctx: ctx})
+		case k < 42:
+			// an instance of another configuration is created and used between two uses of ours
+			am := "any"
+			if c15 && ro.Chance(1, 2) {
+				am = "c15"
+			}
+			ac := genConfig(ro.Split("aux"), am)
+			if ro.Chance(1, 3) {
+				ac = Config{}
+			}
+			ops = append(ops, Op{Kind: "AuxConvert", Doc: docFor(), Stack: stack, Aux: &ac})
 		case k < 56:
 			slot := ro.Intn(8)
 			ops = append(ops, Op{Kind: "Parse", Doc: docFor(), Tree: slot, Ctx: ctx, Reader: ro.Chance(1, 4)})
@@ -304,9 +326,25 @@ func genFault(r *Rng, maxK int) *FaultPlan {
 
 func histWorker(p *histParams, st *Stats) {
 	c := loadCorpus()
-	for run := p.shard; run < p.runs; run += p.of {
+	start := p.shard
+	if p.ctl != nil {
+		start = p.ctl.from
+	} else {
+		curProc = &ProcHistory{Tier: p.tier, Shard: p.shard, Of: p.of, Runs: p.runs}
+	}
+	lastRun := -1
+	for run := start; run < p.runs; run += p.of {
+		if p.ctl != nil && run > p.ctl.until {
+			break
+		}
 		spec := genHistSpec(p, c, run)
 		v := executeSpec(spec, st)
+		if p.ctl != nil {
+			if v != nil {
+				p.ctl.capture(spec, v)
+			}
+			continue
+		}
 		st.Inc("evaluations")
 		ops := spec.Clients[0]
 		if len(ops) >= 2 {
@@ -340,5 +378,13 @@ func histWorker(p *histParams, st *Stats) {
 				reportViolation(spec, v, st, p.replayDir, !p.noMinimise)
 			}
 		}
+		lastRun = run
+	}
+	if p.ctl == nil && lastRun >= 0 && len(st.Violations) == 0 {
+		nc, nd := 24, 10
+		if p.tier == "thorough" {
+			nc, nd = 120, 30
+		}
+		pristineSample(p, st, lastRun, nc, nd)
 	}
 }
